@@ -18,6 +18,20 @@ RULE = ("(a) html_escape on EVERY Unicode scalar value (1 112 064 chars, in 272 
 DEFINITE_FLOOR = 0.5
 GENERATED_OBLIGATIONS = ["EscapeTable"]
 SPECIALS = "<>\"'`=&"
+NAME_CHARS = "abcxyzABZ019-_$:elsthi" + "\u0080\u00e9\u07ff\u0800\u4e2d\uffff\U00010000\U0001f600\U0010ffff"
+BUILTIN_HELPERS = {"if", "unless", "each", "with", "lookup", "raw", "log", "eq", "ne", "gt", "gte", "lt", "lte", "and", "or", "not", "len"}
+
+
+def ident_name(r):
+    """a name the grammar reads as one identifier: symbol_char+, not beginning with `else`, not `this`, no built-in helper"""
+    while True:
+        nm = "".join(r.pick(list(NAME_CHARS)) for _ in range(r.pick([1, 1, 2, 3, 4, 6, 9])))
+        if r.chance(0.15):
+            nm = r.pick(["true", "false", "null", "123", "-1", "as", "els", "el-se", "thisx", "this-", "e", "t", "$", ":", "-", "_",
+                         "1e5", "Else", "ELSE", "if-", "eachx", "\u0080", "\u07ff", "\u0800", "\uffff",
+                         "\U00010000", "\U0010ffff"])
+        if not nm.startswith("else") and nm != "this" and nm not in BUILTIN_HELPERS:
+            return nm
 
 
 def chunks():
@@ -57,6 +71,29 @@ def generate(rng, n, tier="quick"):
             txt = ref.render_value(val)
             src = thm_left(r) if k else thm_right(r)
             exp = src
+            if r.chance(0.35):
+                # the family of C02.texts_and_named_tags_render (and its one-tag instances name_between_texts_escaped_once,
+                # triple_name_… / amp_name_between_texts_never_escaped): S0 T1 S1 … Tk Sk where every Ti is {{name}}, {{{name}}} or
+                # {{&name}} of ANY identifier – any run of the grammar's symbol_char class (the edges of its three Unicode ranges
+                # included) that does not begin with `else`, is not `this` and names no registered helper – each name with its own value
+                pick_name = lambda: ident_name(r)
+                def pick_val():
+                    return r.pick(["".join(r.pick(list(SPECIALS) + list("ab é&;#x \n")) for _ in range(r.range(0, 8))), 5, -3, True, False, None,
+                                   ["<a>", "b&"], {"k": "<"}, "", "&amp;", 2 ** 64 - 1])
+                data = {"w": "unused<"}
+                for t in range(k):
+                    nm = pick_name()
+                    if nm not in data or nm == "w":
+                        data[nm] = val if t == 0 else pick_val()
+                    tx = ref.render_value(data[nm])
+                    nxt = thm_right(r) if t == k - 1 else r.pick([thm_left(r), "", " ", "\n", "  \t"])
+                    form = r.pick(["dbl", "dbl", "triple", "amp"])
+                    src += {"dbl": "{{" + nm + "}}", "triple": "{{{" + nm + "}}}", "amp": "{{&" + nm + "}}"}[form] + nxt
+                    exp += (escape_of(esc)(tx) if form == "dbl" else tx) + nxt
+                case = session({"escape": esc}, [], {"api": "render_template", "src": src}, data)
+                case["id"] = "%s-%06d" % (ID, i)
+                out.append((case, {"mode": "thm", "expect": exp, "esc": esc, "fam": "name"}))
+                continue
             for t in range(k):
                 sp = r.pick(["{{v}}", "{{{v}}}", "{{&v}}", "{{this.v}}", "{{this/v}}", "{{./v}}", "{{ v }}"])
                 nxt = thm_right(r) if t == k - 1 else r.pick([thm_left(r), "", " ", "\n", "  \t"])
